@@ -6,6 +6,10 @@
 // same source into the same struct type. Exhaustive product of field-value alphabets x 8 sources x
 // EnableSplittingOnParsers x automatic error handling x {per-source method, Bind().Body()}.
 //
+// Part C (client-side histories, history.go): one client-side container (the same Request object, the client-wide
+// defaults, the client's pool of Request objects) is configured two or three times with different values before /
+// between sends; the server must bind the value configured last.
+//
 // Part B (totality): hostile keys / bodies, all combinations of <= 2, as raw requests: no panic, failure
 // reported as an error (400 under automatic handling), allocation per request within a calibrated budget.
 // Runs in single-threaded worker processes so that runtime.MemStats.TotalAlloc deltas belong to the request.
@@ -154,6 +158,26 @@ func dedupe(vs []any) []any {
 
 type pairOfStations [2]*station
 
+// stations (server with splitting off, server with splitting on) are reused by the work items of the
+// round-trip and history parts; a work item owns its pair while it runs.
+var stationPool = make(chan pairOfStations, 64)
+
+func getStations() pairOfStations {
+	select {
+	case p := <-stationPool:
+		return p
+	default:
+		return pairOfStations{newStation(false), newStation(true)}
+	}
+}
+
+func putStations(p pairOfStations) {
+	select {
+	case stationPool <- p:
+	default:
+	}
+}
+
 var randomBoundary = regexp.MustCompile(`FiberFormBoundary[A-Za-z0-9]{16}`)
 
 // wireHead clips the serialised request; the client's random multipart boundary suffix is masked so that
@@ -206,6 +230,12 @@ func lowest(vs []any, n int) []any {
 // roundTrip sends v and returns "" when the decoded struct equals it, else a failure kind + diff.
 func roundTrip(st *station, src source, v any) (kind string, d *diff, detail string) {
 	status, body, err := st.send(src, v)
+	return st.judge(status, body, err, v)
+}
+
+// judge classifies what the station's handler observed for the request just sent against the value v the
+// client was configured with.
+func (st *station) judge(status int, body string, err error, v any) (kind string, d *diff, detail string) {
 	o := st.obs
 	switch {
 	case o.panicked != "":
@@ -259,15 +289,7 @@ func partA(r *core.Run, col *collector, sp *sampler) (shapes []shape) {
 		fmt.Sscan(e, &nsem)
 	}
 	mpSem := make(chan struct{}, nsem)
-	pool := make(chan pairOfStations, runtime.GOMAXPROCS(0)+1)
-	get := func() pairOfStations {
-		select {
-		case p := <-pool:
-			return p
-		default:
-			return pairOfStations{newStation(false), newStation(true)}
-		}
-	}
+	get := getStations
 	r.Parallel(len(items), func(ii int, l *core.Local) {
 		if r.Expired() {
 			r.Cap("wall-clock cap reached during the round-trip part: remaining value chunks not run")
@@ -280,7 +302,7 @@ func partA(r *core.Run, col *collector, sp *sampler) (shapes []shape) {
 			defer func() { <-mpSem }()
 		}
 		sts := get()
-		defer func() { pool <- sts }()
+		defer putStations(sts)
 		mine := newCollector()
 		var variants []variant
 		for _, split := range []bool{false, true} {
@@ -473,13 +495,27 @@ func main() {
 	sp := &sampler{}
 	shapes := partA(r, col, sp)
 	dA := time.Since(tA)
+	tC := time.Now()
+	hb := partC(r, col, sp, 1<<40)
+	dC := time.Since(tC)
 	debug.SetGCPercent(100)
 	debug.FreeOSMemory() // the worker processes need the memory now
 	var samplesA []any
 	for _, m := range sp.s {
 		samplesA = append(samplesA, m)
 	}
-	samplesA = lowest(samplesA, 4)
+	{
+		// the lowest-ordered samples of the round-trip part and of the history part
+		var a, c []any
+		for _, m := range samplesA {
+			if m.(map[string]any)["part"] == "history" {
+				c = append(c, m)
+			} else {
+				a = append(a, m)
+			}
+		}
+		samplesA = append(lowest(a, 3), lowest(c, 3)...)
+	}
 	r.P.Samples = nil
 	{
 		l := core.NewLocal()
@@ -490,7 +526,7 @@ func main() {
 	nw := runtime.NumCPU()
 	tB := time.Now()
 	crashed := r.SpawnWorkers(nw, []string{"GOMAXPROCS=1"}, "-allocbudget", fmt.Sprint(budget))
-	r.Note(fmt.Sprintf("wall: round-trip part %.1fs on %d goroutines, totality part %.1fs on %d worker processes", dA.Seconds(), runtime.GOMAXPROCS(0), time.Since(tB).Seconds(), nw))
+	r.Note(fmt.Sprintf("wall: round-trip part %.1fs and history part %.1fs on %d goroutines, totality part %.1fs on %d worker processes", dA.Seconds(), dC.Seconds(), runtime.GOMAXPROCS(0), time.Since(tB).Seconds(), nw))
 	sort.Strings(crashed)
 	for _, c := range crashed {
 		if strings.Contains(c, "exit status 2") {
@@ -532,11 +568,14 @@ func main() {
 			"samples":             samples,
 			"rule": fmt.Sprintf("Part A: every value of S1{Str,Strs} (%d values: Str over %d strings x Strs over all lists of length <= 2 (quick: <= 1, plus length 2 over 8 symbols) + lists of length 3 over 6 symbols (thorough) + a 40-element list + the empty non-nil slice) and of S2{I,I8,U,U32,F64,F32,B,Is,Fs,Bs,Us,F32s} (%d values: scalar product x 3 slice configurations, plus scalar base points x product of the slice lists) "+
 				"is sent with the bundled client's struct API of each of the 8 sources under splitting{off,on} x auto-handling{off,on} x {per-source bind method, Bind().Body() for body carriers} and compared with the struct decoded in the handler; pairs the carrier cannot legally transport, and comma-containing values under splitting, are skipped and counted; a case is non-trivial when the sent struct holds something an encoder/decoder pair can get wrong (a string that is empty or has a byte outside [A-Za-z0-9], a non-empty slice, a number at a type limit / non-integral / beyond 2^53). "+
+				"Part C (client-side histories): every ordered pair over %d S1 and %d S2 history values (Str in {empty, a, %%41} x Strs in {nil, empty non-nil, [empty string], 1, 2, 3 elements}; scalars jointly {zero, small, extreme} x slices jointly {nil, empty non-nil, one zero element, one non-zero element, two elements}) and every ordered triple over %d / %d of them is configured into ONE client-side container of every carrier that has one - the same Request object (struct setter applied 2-3 times, one send), the client-wide defaults (updated 2-3 times, a bare request after every update), consecutive requests from one client's request pool, and a Request whose body was first set through another body carrier - and the struct decoded by the server is compared with the value configured LAST; a failure that the same value shows on a fresh request is filed under the part-A signature; non-trivial = two consecutive steps configure different values. "+
 				"Part B: %d groups (5 key-value carriers x 5 bind targets x splitting; 5 body bind calls x 10 content types x 3 targets) each over all single hostile components and all ordered pairs of them, each request run with manual and automatic handling, judged for panic / error / status / paired consistency / allocation; non-trivial = the request got past the HTTP parser and reached the binder.",
-				len(shapes[0].Values), len(strAlpha), len(shapes[1].Values), len(groups)),
+				len(shapes[0].Values), len(strAlpha), len(shapes[1].Values), hb.H1Values, hb.H2Values, hb.H1TripleValues, hb.H2TripleValues, len(groups)),
 			"bounds": map[string]any{
 				"string_alphabet": alpha, "s1_values": len(shapes[0].Values), "s2_values": len(shapes[1].Values),
 				"hostile_keys": len(hostileKeys), "hostile_values": len(hostileVals), "hostile_body_fragments": len(bodyFrags), "content_types": len(ctypes),
+				"history_values_s1": hb.H1Values, "history_values_s2": hb.H2Values, "history_pairs": hb.Pairs, "history_triples": hb.Triples, "history_max_steps": 3,
+				"history_container_x_carrier_cells": hb.Cells, "histories_run": r.P.Counters["histories"], "history_requests_sent": r.P.Counters["history_sends"],
 				"max_components_per_hostile_request": 2, "totality_groups": len(groups), "totality_cases": totalCases,
 				"alloc_budget_bytes": budget, "alloc_max_wellformed_bytes": maxWF, "alloc_wellformed_calibration": calib,
 				"alloc_rule": "budget = 64 x the largest TotalAlloc delta of a well-formed request (40-element slices, 300-byte strings) over all carriers, at least 1 MiB, rounded up to a power of two; measured per batch of 64 request pairs and per request when a batch exceeds it",
@@ -546,6 +585,7 @@ func main() {
 			"the in-memory fasthttp.RoundTripper writes the request with Request.Write and reads the answer with Response.Read exactly as fasthttp's own transport does; connection management of the client is not exercised",
 			"header structs are sent with client.SetValWithStruct (the exported encoder behind the *WithStruct request methods) feeding Request.AddHeader, because Request has no header struct method",
 			"multipart is what the client produces for form data plus one attached file",
+			"histories: headers have no struct setter (Request or Client) and take part only in the consecutive-pooled-requests histories; a value set client-wide combined with a different value on the request, and a Request object sent twice, are outside the statement (the client merges / accumulates) and are not judged",
 			"carrier legality: header values without CR/LF/NUL/edge whitespace; cookie values of RFC 6265 cookie-octets; JSON/CBOR valid UTF-8; XML 1.0 Char; JSON cannot carry infinities",
 			"equality: numeric == on numbers (so -0 equals 0), byte equality on strings, nil and empty slices identified; NaN is not in the alphabet",
 			"totality: which inputs MUST fail is judged only for values that cannot be the type of a known scalar field and for bodies the documented codec (encoding/json, encoding/xml, fxamacker/cbor) rejects or a content type Body() does not list; elsewhere only panic / status / paired-consistency / allocation are judged",
